@@ -136,6 +136,109 @@ fn mk_resp(id: u16, q: usize, kind: RKind, owner: usize, serial: u16) -> Vec<u8>
     v
 }
 
+/// Reply grammar: RCODE x question section x TC (x ID, chosen by the caller).
+#[derive(Clone, Copy, Debug, PartialEq, Eq)]
+enum QSel {
+    /// the request's question
+    Same,
+    /// another owner name
+    OtherName,
+    /// the request's name with another type (AAAA)
+    OtherType,
+    /// no question, no records
+    Empty,
+    /// no question but one record in the answer section
+    EmptyExtra,
+}
+
+#[derive(Clone, Copy, Debug, PartialEq, Eq)]
+struct Shape {
+    rcode: u8,
+    qsel: QSel,
+    tc: bool,
+}
+
+const RCODES: [u8; 4] = [0, 2, 3, 5]; // NOERROR, SERVFAIL, NXDOMAIN, REFUSED
+const QSELS: [QSel; 5] = [QSel::Same, QSel::OtherName, QSel::OtherType, QSel::Empty, QSel::EmptyExtra];
+
+/// The whole product except the plain answer (NOERROR, same question, TC=0),
+/// which is the "intact" reply.
+fn all_shapes() -> Vec<Shape> {
+    let mut v = Vec::new();
+    for rcode in RCODES {
+        for qsel in QSELS {
+            for tc in [false, true] {
+                if !(rcode == 0 && qsel == QSel::Same && !tc) {
+                    v.push(Shape { rcode, qsel, tc });
+                }
+            }
+        }
+    }
+    v
+}
+
+/// Shapes sent under a WRONG id: every rcode with the request's question and
+/// with an empty question (the header-only form), TC=0.
+fn wrong_id_shapes() -> Vec<Shape> {
+    let mut v = Vec::new();
+    for rcode in RCODES {
+        for qsel in [QSel::Same, QSel::Empty] {
+            if !(rcode == 0 && qsel == QSel::Same) {
+                v.push(Shape { rcode, qsel, tc: false });
+            }
+        }
+    }
+    v
+}
+
+/// A reply of the given shape to a request for question `q`. NOERROR replies
+/// that carry a question also carry one A record (10.<owner>.<serial>).
+fn mk_shape(id: u16, q: usize, sh: Shape, owner: usize, serial: u16) -> Vec<u8> {
+    let mut v = Vec::new();
+    v.extend_from_slice(&id.to_be_bytes());
+    let flags: u16 = 0x8180 | sh.rcode as u16 | if sh.tc { 0x0200 } else { 0 };
+    let question: Option<Vec<u8>> = match sh.qsel {
+        QSel::Same => Some(qwire(q)),
+        QSel::OtherName => Some(qwire(2)),
+        QSel::OtherType => {
+            let mut w = QNAMES[q].to_vec();
+            w.extend_from_slice(&[0, 28, 0, 1]);
+            Some(w)
+        }
+        QSel::Empty | QSel::EmptyExtra => None,
+    };
+    let an: u16 = if (sh.rcode == 0 && question.is_some()) || sh.qsel == QSel::EmptyExtra { 1 } else { 0 };
+    v.extend_from_slice(&flags.to_be_bytes());
+    v.extend_from_slice(&(question.is_some() as u16).to_be_bytes());
+    v.extend_from_slice(&an.to_be_bytes());
+    v.extend_from_slice(&[0, 0, 0, 0]);
+    if let Some(qs) = &question {
+        v.extend_from_slice(qs);
+    }
+    if an == 1 {
+        if question.is_some() {
+            v.extend_from_slice(&[0xC0, 0x0C]);
+        } else {
+            v.extend_from_slice(QNAMES[q]);
+        }
+        v.extend_from_slice(&[0, 1, 0, 1, 0, 0, 0, 60, 0, 4, 10, owner as u8]);
+        v.extend_from_slice(&serial.to_be_bytes());
+    }
+    v
+}
+
+/// Shapes used on top of dgram_stream / multi_stream: an error RCODE with a
+/// question that is not the request's, or none, TC 0/1.
+fn multi_shapes() -> Vec<Shape> {
+    let mut v = Vec::new();
+    for qsel in [QSel::OtherName, QSel::Empty, QSel::EmptyExtra] {
+        for tc in [false, true] {
+            v.push(Shape { rcode: 3, qsel, tc });
+        }
+    }
+    v
+}
+
 fn framed(msg: &[u8]) -> Vec<u8> {
     let mut v = (msg.len() as u16).to_be_bytes().to_vec();
     v.extend_from_slice(msg);
@@ -975,7 +1078,12 @@ struct Entry {
 enum SAct {
     Submit,
     Deliver(usize, RKind),    // entry index
-    WrongQ(usize),            // entry index: right ID, other question
+    /// entry index, reply shape under the entry's ID
+    Shaped(usize, Shape),
+    /// entry index (content), other ID, shape
+    ShapedWrongId(usize, u16, Shape),
+    /// closed entry: late / re-sent ERROR reply (given rcode) with its ID and question
+    StaleErr(usize, u8),
     WrongId(usize, u16),      // content of entry, other ID
     Stale(usize),             // closed entry: re-sent / late answer with its ID
     Short(usize),             // frame of this many octets (<12)
@@ -1147,9 +1255,19 @@ async fn run_stream(g: &Global, cfg: &StreamCfg, ch: Arc<Mutex<Chooser>>) {
                 }
             }
             for &e in &open {
-                menu.push(SAct::WrongQ(e));
-                menu.push(SAct::Deliver(e, RKind::HdrErr));
                 menu.push(SAct::Deliver(e, RKind::Qr0));
+                // the reply grammar: for every open request with up to two
+                // callers, for the oldest open request with three, and only
+                // the three classic shapes in the six-caller slot-recycling case
+                if cfg.plan.len() <= 2 || (cfg.plan.len() == 3 && e == open[0]) {
+                    for shp in all_shapes() {
+                        menu.push(SAct::Shaped(e, shp));
+                    }
+                } else {
+                    menu.push(SAct::Shaped(e, Shape { rcode: 0, qsel: QSel::OtherName, tc: false }));
+                    menu.push(SAct::Shaped(e, Shape { rcode: 2, qsel: QSel::Empty, tc: false }));
+                    menu.push(SAct::Shaped(e, Shape { rcode: 3, qsel: QSel::OtherName, tc: false }));
+                }
             }
             // wrong IDs: other open IDs, the most recently closed free ID, a never used ID
             let open_ids: Vec<u16> = open.iter().map(|e| entries[*e].id).collect();
@@ -1166,10 +1284,32 @@ async fn run_stream(g: &Global, cfg: &StreamCfg, ch: Arc<Mutex<Chooser>>) {
                     menu.push(SAct::WrongId(e, t));
                 }
             }
-            // late / re-sent answers for the two most recently closed entries
+            // error replies under an ID nobody (or somebody else) is waiting on
+            if let Some(&e0) = open.first().filter(|_| cfg.plan.len() <= 3) {
+                let mut targets: Vec<u16> = open_ids.iter().copied().filter(|t| *t != entries[e0].id).collect();
+                if let Some(f) = freed {
+                    targets.push(f);
+                }
+                targets.push(9);
+                targets.sort();
+                targets.dedup();
+                for t in targets {
+                    for shp in wrong_id_shapes() {
+                        if shp.rcode != 0 {
+                            menu.push(SAct::ShapedWrongId(e0, t, shp));
+                        }
+                    }
+                }
+            }
+            // late / re-sent answers and error replies for the two most recently closed entries
             let closed: Vec<usize> = (0..entries.len()).rev().filter(|i| !entries[*i].open).take(2).collect();
             for c in closed {
                 menu.push(SAct::Stale(c));
+                for rc in RCODES {
+                    if rc != 0 {
+                        menu.push(SAct::StaleErr(c, rc));
+                    }
+                }
             }
             menu.push(SAct::Short(0));
             menu.push(SAct::Short(11));
@@ -1243,13 +1383,33 @@ async fn run_stream(g: &Global, cfg: &StreamCfg, ch: Arc<Mutex<Chooser>>) {
                 feed(&st, framed(&msg));
                 account_frame(&mut core, &mut entries, 0, healthy, &msg, false);
             }
-            SAct::WrongQ(e) => {
+            SAct::Shaped(e, shp) => {
                 flush_tail(&mut core, &mut peer, &mut entries, healthy);
                 let en = entries[e].clone();
-                let s = core.next_serial();
-                let msg = mk_resp(en.id, 2, RKind::Answer, en.req, s);
-                core.note(format!("peer answers id {} with another question", en.id));
-                core.count("action.deliver.WrongQ");
+                let sn = core.next_serial();
+                let msg = mk_shape(en.id, en.q, shp, en.req, sn);
+                core.note(format!("peer answers caller {} id {} with rcode {} question {:?} tc {}", en.req, en.id, shp.rcode, shp.qsel, shp.tc));
+                core.count(&format!("action.deliver.shape.rcode{}.{:?}.tc{}", shp.rcode, shp.qsel, shp.tc as u8));
+                feed(&st, framed(&msg));
+                account_frame(&mut core, &mut entries, 0, healthy, &msg, false);
+            }
+            SAct::ShapedWrongId(e, t, shp) => {
+                flush_tail(&mut core, &mut peer, &mut entries, healthy);
+                let en = entries[e].clone();
+                let sn = core.next_serial();
+                let msg = mk_shape(t, en.q, shp, en.req, sn);
+                core.note(format!("peer sends rcode {} question {:?} for caller {} under id {t} (its id is {})", shp.rcode, shp.qsel, en.req, en.id));
+                core.count("action.deliver.ShapedWrongId");
+                feed(&st, framed(&msg));
+                account_frame(&mut core, &mut entries, 0, healthy, &msg, false);
+            }
+            SAct::StaleErr(e, rc) => {
+                flush_tail(&mut core, &mut peer, &mut entries, healthy);
+                let en = entries[e].clone();
+                let sn = core.next_serial();
+                let msg = mk_shape(en.id, en.q, Shape { rcode: rc, qsel: QSel::Same, tc: false }, en.req, sn);
+                core.note(format!("peer re-sends / sends late an error reply (rcode {rc}) for closed caller {} id {}", en.req, en.id));
+                core.count("action.deliver.StaleErr");
                 feed(&st, framed(&msg));
                 account_frame(&mut core, &mut entries, 0, healthy, &msg, false);
             }
@@ -1541,7 +1701,8 @@ enum DAct {
     Submit,
     Reply(usize, RKind), // index into waiting
     WrongId(usize),
-    WrongQ(usize),
+    /// reply of the given shape under the right (true) or a wrong (false) ID
+    Shaped(usize, Shape, bool),
     Garbage(usize, usize), // length
     Late(usize),
     Cross(usize, usize), // to waiting[a]'s socket, the reply for waiting[b]
@@ -1647,10 +1808,22 @@ async fn run_dgram(g: &Global, cfg: &DgramCfg, ch: Arc<Mutex<Chooser>>) {
                 menu.push(DAct::Reply(wi, RKind::Answer));
             }
             menu.push(DAct::Reply(wi, RKind::Tc));
-            menu.push(DAct::Reply(wi, RKind::HdrErr));
             menu.push(DAct::Reply(wi, RKind::Qr0));
             menu.push(DAct::WrongId(wi));
-            menu.push(DAct::WrongQ(wi));
+            // the reply grammar: for every waiting caller with up to two
+            // callers, for the first waiting caller with three
+            if cfg.plan.len() <= 2 || wi == 0 {
+                for shp in all_shapes() {
+                    menu.push(DAct::Shaped(wi, shp, true));
+                }
+                for shp in wrong_id_shapes() {
+                    menu.push(DAct::Shaped(wi, shp, false));
+                }
+            } else {
+                menu.push(DAct::Shaped(wi, Shape { rcode: 0, qsel: QSel::OtherName, tc: false }, true));
+                menu.push(DAct::Shaped(wi, Shape { rcode: 2, qsel: QSel::Empty, tc: false }, true));
+                menu.push(DAct::Shaped(wi, Shape { rcode: 3, qsel: QSel::OtherName, tc: false }, true));
+            }
             menu.push(DAct::Garbage(wi, 0));
             menu.push(DAct::Garbage(wi, 11));
             if w.prev_id.is_some() {
@@ -1711,11 +1884,17 @@ async fn run_dgram(g: &Global, cfg: &DgramCfg, ch: Arc<Mutex<Chooser>>) {
                 core.count("action.reply.WrongId");
                 deliver(&mut core, wi, mk_resp(w.id ^ 0x0100, w.q, RKind::Answer, w.req, s), "answer with another id".into());
             }
-            DAct::WrongQ(wi) => {
+            DAct::Shaped(wi, shp, right_id) => {
                 let w = waiting[wi].clone();
-                let s = core.next_serial();
-                core.count("action.reply.WrongQ");
-                deliver(&mut core, wi, mk_resp(w.id, 2, RKind::Answer, w.req, s), "right id, another question".into());
+                let sn = core.next_serial();
+                let id = if right_id { w.id } else { w.id ^ 0x0100 };
+                core.count(&format!("action.reply.shape.{}.rcode{}.{:?}.tc{}", if right_id { "id-ok" } else { "id-wrong" }, shp.rcode, shp.qsel, shp.tc as u8));
+                deliver(
+                    &mut core,
+                    wi,
+                    mk_shape(id, w.q, shp, w.req, sn),
+                    format!("{} id, rcode {}, question {:?}, tc {}", if right_id { "right" } else { "wrong" }, shp.rcode, shp.qsel, shp.tc),
+                );
             }
             DAct::Garbage(wi, l) => {
                 core.count("action.reply.Garbage");
@@ -1857,6 +2036,9 @@ enum MAct {
     Submit,
     Udp(usize, RKind),
     UdpTcWrongId(usize),
+    /// error replies under the right ID: other / empty question, TC 0/1
+    UdpShaped(usize, Shape),
+    TcpShaped(usize, Shape),
     UdpGarbage(usize),
     UdpRecvErr(usize),
     Tcp(usize, RKind),
@@ -2002,6 +2184,9 @@ async fn run_multi(g: &Global, cfg: &MultiCfg, ch: Arc<Mutex<Chooser>>) {
                 }
             }
             menu.push(MAct::UdpTcWrongId(wi));
+            for shp in multi_shapes() {
+                menu.push(MAct::UdpShaped(wi, shp));
+            }
             menu.push(MAct::UdpGarbage(wi));
             menu.push(MAct::UdpRecvErr(wi));
         }
@@ -2010,6 +2195,11 @@ async fn run_multi(g: &Global, cfg: &MultiCfg, ch: Arc<Mutex<Chooser>>) {
                 menu.push(MAct::Tcp(e, RKind::Answer));
             }
             menu.push(MAct::TcpWrongQ(e));
+            for shp in multi_shapes() {
+                if !shp.tc {
+                    menu.push(MAct::TcpShaped(e, shp));
+                }
+            }
             menu.push(MAct::Tcp(e, RKind::HdrErr));
             menu.push(MAct::Tcp(e, RKind::AnswerTc));
         }
@@ -2064,6 +2254,31 @@ async fn run_multi(g: &Global, cfg: &MultiCfg, ch: Arc<Mutex<Chooser>>) {
                     }
                 }
                 dg_feed(&dsh, w.sock, Ok(msg));
+            }
+            MAct::UdpShaped(wi, shp) => {
+                let w = waiting[wi].clone();
+                let sn = core.next_serial();
+                let msg = mk_shape(w.id, w.q, shp, w.req, sn);
+                core.note(format!("peer -> caller {} over datagram: rcode {} question {:?} tc {}", w.req, shp.rcode, shp.qsel, shp.tc));
+                core.count("action.udp.Shaped");
+                core.delivered.push(Delivered { bytes: msg.clone(), udp: true });
+                if core.pending(w.req) && answers(&msg, &[w.id], w.q).is_ok() {
+                    if shp.tc {
+                        tc_expect.push((w.req, calls_now, tcp_frames_of[w.req]));
+                    } else {
+                        core.expect.push((w.req, msg.clone()));
+                    }
+                }
+                dg_feed(&dsh, w.sock, Ok(msg));
+            }
+            MAct::TcpShaped(e, shp) => {
+                let en = entries[e].clone();
+                let sn = core.next_serial();
+                let msg = mk_shape(en.id, en.q, shp, en.req, sn);
+                core.note(format!("peer answers caller {} id {} on stream #{} with rcode {} question {:?}", en.req, en.id, en.conn, shp.rcode, shp.qsel));
+                core.count("action.tcp.Shaped");
+                feed(&conns[en.conn], framed(&msg));
+                account_frame(&mut core, &mut entries, en.conn, tr_alive, &msg, false);
             }
             MAct::UdpTcWrongId(wi) => {
                 let w = waiting[wi].clone();
@@ -2872,6 +3087,8 @@ fn main() {
             "samples": g.samples.lock().unwrap().values().cloned().collect::<Vec<_>>(),
         }),
         &[
+            "reply grammar offered by the mock peers under the request's ID: RCODE {NOERROR, SERVFAIL, NXDOMAIN, REFUSED} x question {the request's, another name, the request's name with another type, empty, empty with one answer record} x TC {0,1} (40 shapes incl. the intact answer), plus QR=0; under a wrong ID: every RCODE x question {same, empty}; stream additionally: late/re-sent answers and error replies (3 error RCODEs) for closed requests, which meet recycled slots. Full product for every open/waiting request in cases with <= 2 callers, for the oldest one in 3-caller cases; three representative shapes in the 6-caller case; dgram_stream/multi_stream: NXDOMAIN x {other name, empty, empty+record} x TC",
+            "oracle exemption: a reply with RCODE != 0 and all four section counts zero is accepted on the ID alone (this is what RequestMessage::is_answer documents: 'If the result is an error, then the question section can be empty. In that case we require all other sections to be empty as well.'); every other Ok must carry the request's question",
             "at most 3 deviations from the default environment per execution (2 in quick); at most 3 concurrent requests (one 6-request two-wave stream case with 4 concurrent)",
             "stream timeouts run on tokio's paused clock (feature verif-hooks of /repo); budget of a stream request = response_timeout + 1 ms from submission (1 ms timer resolution and the transport's strict `elapsed > response_timeout`)",
             "the time step that lands exactly on timer start + 19 s (effective response timeout) is not offered: Transport::run then loops on a zero-length sleep until the clock moves, which never happens under the frozen clock (artefact of the paused clock, not counted as a violation); step lengths are chosen so that no sum of steps hits that instant; a watchdog (30 s) reports any execution that does not terminate",
